@@ -175,7 +175,8 @@ func ReadIgnoreAnnotations(cfg *config.Config, pass *analysis.Pass) *util.Ignore
 // Example: var x int // @ignore CODE1
 func findInlineNode(file *ast.File, comment *ast.Comment, fset *token.FileSet) (start token.Pos, end token.Pos, found bool) {
 	commentPos := comment.Pos()
-	commentLine := fset.Position(commentPos).Line
+	// physical lines: //line directives must not move the comment away from its code
+	commentLine := fset.PositionFor(commentPos, false).Line
 
 	// Binary search to find the declaration containing the comment
 	idx := sort.Search(len(file.Decls), func(i int) bool {
@@ -184,7 +185,7 @@ func findInlineNode(file *ast.File, comment *ast.Comment, fset *token.FileSet) (
 
 	// A comment that trails the last line of the preceding declaration
 	// ("var x T // @ignore CODE", "} // @ignore CODE") is inline as well
-	if idx > 0 && fset.Position(file.Decls[idx-1].End()).Line == commentLine {
+	if idx > 0 && fset.PositionFor(file.Decls[idx-1].End(), false).Line == commentLine {
 		if fileContent := fset.File(commentPos); fileContent != nil {
 			return fileContent.LineStart(commentLine), comment.End(), true
 		}
@@ -215,8 +216,8 @@ func findInlineNode(file *ast.File, comment *ast.Comment, fset *token.FileSet) (
 			return false
 		}
 
-		nodeStartLine := fset.Position(n.Pos()).Line
-		nodeEndLine := fset.Position(n.End()).Line
+		nodeStartLine := fset.PositionFor(n.Pos(), false).Line
+		nodeEndLine := fset.PositionFor(n.End(), false).Line
 
 		// Check if this node starts ("switch {", "{", "func(") or ends
 		// on the same line as the comment
